@@ -25,6 +25,71 @@ def moved(t, Jnew):
     return replace(t, J=dict(Jnew), ridges=ridges)
 
 
+def collapse_ridge(t, ri):
+    """Contract internal ridge ri to its midpoint: its two triple junctions become one four-way junction (arcs are
+    re-drawn through the moved end with their subtended angles). None if a neighbouring cell would keep < 3 sides."""
+    r = t.ridges[ri]
+    if r.left is None or r.right is None or r.a == r.b:
+        return None
+    if any(len(t.cells[c]) < 4 for c in (r.left, r.right)):
+        return None
+    a, b = r.a, r.b
+    J = {j: z for j, z in t.J.items() if j != b}
+    J[a] = (t.J[a] + t.J[b]) / 2
+    ridges, remap = [], {}
+    for k, q in enumerate(t.ridges):
+        if k == ri:
+            continue
+        qa, qb = (a if q.a == b else q.a), (a if q.b == b else q.b)
+        if qa == qb:
+            return None
+        remap[k] = len(ridges)
+        ridges.append(replace(q, a=qa, b=qb))
+    cells = {cid: [(remap[k], fwd) for k, fwd in cyc if k != ri] for cid, cyc in t.cells.items()}
+    # old positions first, then move (arcs follow their ends)
+    t2 = replace(t, J={j: t.J[j] for j in J}, ridges=ridges, cells=cells)
+    return moved(t2, J)
+
+
+def push_junctions_into_half_planes(t, nint, seed, frac=0.35, push=0.6):
+    """Far from equilibrium: a drawn part of the junctions is pushed back along one of its interfaces by 0.6 of its
+    shortest chord, so that all its interfaces leave inside one half-plane (reflex corner in the opposite cell).
+    Returns (tissue, number moved) or (None, 0) when some cell stops being a simple polygon."""
+    rng = PRNG(seed)
+    J = dict(t.J)
+    n = 0
+    for j, rs in sorted(t.junction_ridges().items()):
+        if len(rs) >= 3 and rng.uniform() < frac:
+            ri = rs[int(rng.integers(0, len(rs)))]
+            J[j] = t.J[j] - push * min(abs(t.J[t.ridges[r].a] - t.J[t.ridges[r].b]) for r in rs) * t.tangent(ri, j)
+            n += 1
+    t2 = moved(t, J)
+    for c in t2.cells:
+        toks = t2.cell_polygon(c, lambda k_: nint[k_])
+        pts = [t2.J[tok[1]] if tok[0] == "J" else t2.points(tok[1], nint[tok[1]])[tok[2]] for tok in toks]
+        if not simple_polygon(pts):
+            return None, 0
+    return t2, n
+
+
+def simple_polygon(poly):
+    """No two non-adjacent segments of the closed polygon intersect."""
+    n = len(poly)
+
+    def orient(a, b, c):
+        return ((b - a).conjugate() * (c - a)).imag
+
+    for i in range(n):
+        a, b = poly[i], poly[(i + 1) % n]
+        for j in range(i + 2, n):
+            if i == 0 and j == n - 1:
+                continue
+            c, d = poly[j], poly[(j + 1) % n]
+            if orient(a, b, c) * orient(a, b, d) < 0 and orient(c, d, a) * orient(c, d, b) < 0:
+                return False
+    return True
+
+
 def junction_set(t, nint):
     """Junctions as forsys sees them: vertices with >= 3 mesh edges = tissue junctions with >= 3 ridges."""
     return sorted(j for j, rs in t.junction_ridges().items() if len(rs) >= 3)
